@@ -93,6 +93,24 @@ def check_lossless_rendering(ctx, rule: str) -> int:
                     isinstance(c.func.value.value, str) and ',' in c.func.value.value and c.args):
                 continue
             comp = c.args[0]
+            if isinstance(comp, ast.Call) and dotted_name(comp.func) == 'map' and len(comp.args) == 2 and isinstance(comp.args[1], ast.Name):
+                # `', '.join(map(str, item))` for the pair variable of a comprehension over `.items()`
+                q = parent(c)
+                inside = False
+                while q is not None and q is not fnode:
+                    if isinstance(q, (ast.ListComp, ast.GeneratorExp)) and any('items()' in norm(g_.iter) and norm(g_.target) == comp.args[1].id for g_ in q.generators):
+                        inside = True
+                    q = parent(q)
+                if inside:
+                    n += 1
+                    fn_ = dotted_name(comp.args[0]) or norm(comp.args[0])
+                    key = f'{f.qualname}/parameter-values-rendered-losslessly'
+                    where = f'{f.module.rel}:{c.lineno}'
+                    if fn_ in ('str', 'repr'):
+                        ctx.ok(rule, key, where, norm(comp)[:60])
+                    else:
+                        raise AnalysisError(f'{f.qualname}: value rendering `{norm(comp)[:60]}` not recognised (cannot decide)')
+                    continue
             if isinstance(comp, (ast.Tuple, ast.List)) and comp.elts:
                 # `', '.join((str(name), str(value)))` inside a comprehension over `.items()`: the elements are spelled out
                 q = parent(c)
